@@ -604,6 +604,7 @@ FINDINGS = _build() + [
          example="{'alpha': {'typ': 'pkg.Kind', 'default': '```pkg.Kind.A```'}} through function(type_annotations=False, emit_as_kwonlyargs=True) four times"),
 ]
 FIXED = [
+    "fixed: property=C08 1666a8a NumPy style: typed parameter followed by an untyped one - the second parameter's text was re-flowed into the first one's default every round (continuation lines joined with newlines)",
     'fixed: property=C08 f4150fc Google style: the unindented continuation line moved into the header on round 1 and was re-flowed on round 2',
     'fixed: property=C08 fc46805 a string default containing a full stop was cut again on round 2 (doc-derived type paths)',
     'fixed: property=C08 26237d2 second round re-read the unescaped "say "hi"" prose default and raised SyntaxError',
@@ -611,5 +612,5 @@ FIXED = [
 ]
 
 # patterns of defects that have since been repaired in the repository (see FIXED): no longer known findings
-FIXED_IDS = ['C08-double-quote-in-default-later-round-raises', 'C08-google-multiline-description-header-reflows', 'C08-string-default-with-full-stop-keeps-shrinking']
+FIXED_IDS = ['C08-docstring-default-26', 'C08-double-quote-in-default-later-round-raises', 'C08-google-multiline-description-header-reflows', 'C08-string-default-with-full-stop-keeps-shrinking']
 FINDINGS = [f for f in FINDINGS if f["id"] not in FIXED_IDS]
